@@ -448,6 +448,9 @@ theorem silent_kinds (s : SwitchState) :
       | delete => exact flowModDelete_out false s mk p op
       | deleteStrict => exact flowModDelete_out true s mk p op
     unfold rxFlowMod
+    rw [badActions_false hk]
+    simp only [Bool.false_eq_true, if_false]
+    unfold rxFlowModBody
     rw [hl]
     cases b with
     | none => exact ⟨_, _, rfl, hfm⟩
@@ -531,20 +534,30 @@ theorem errors_spec (s : SwitchState) (x : Nat) :
     -- unknown flow-mod command ↦ FLOW_MOD_FAILED/BAD_COMMAND (repair D9)
     (∀ c mk p ck f i hd op b acts, 5 ≤ c → rxMessage s (.flowMod x c mk p ck f i hd op b acts) = .ok (s, [.error x 3 4])) ∧
     -- emergency flow with a timeout ↦ FLOW_MOD_FAILED/BAD_EMERG_TIMEOUT
-    (∀ mk p ck f i hd op acts, hasBit f 4 = true → (i ≠ 0 ∨ hd ≠ 0) →
+    (∀ mk p ck f i hd op acts, (∀ a ∈ acts, (actionTable.lookup a.ty).isSome = true) → hasBit f 4 = true → (i ≠ 0 ∨ hd ≠ 0) →
         rxMessage s (.flowMod x 0 mk p ck f i hd op none acts) = .ok (s, [.error x 3 3])) ∧
     -- CHECK_OVERLAP with an overlapping entry of equal priority ↦ FLOW_MOD_FAILED/OVERLAP
-    (∀ mk p ck f i hd op acts, hasBit f 4 = false → hasBit f 2 = true → checkOverlap p mk s.table = true →
+    (∀ mk p ck f i hd op acts, (∀ a ∈ acts, (actionTable.lookup a.ty).isSome = true) → hasBit f 4 = false → hasBit f 2 = true →
+        checkOverlap p mk s.table = true →
         rxMessage s (.flowMod x 0 mk p ck f i hd op none acts) = .ok (s, [.error x 3 1])) ∧
     -- table full ↦ FLOW_MOD_FAILED/ALL_TABLES_FULL
-    (∀ mk p ck f i hd op acts, hasBit f 4 = false → hasBit f 2 = false → s.maxEntries ≤ (tableForAdd 0 s.table mk p).length →
+    (∀ mk p ck f i hd op acts, (∀ a ∈ acts, (actionTable.lookup a.ty).isSome = true) → hasBit f 4 = false → hasBit f 2 = false →
+        s.maxEntries ≤ (tableForAdd 0 s.table mk p).length →
         rxMessage s (.flowMod x 0 mk p ck f i hd op none acts) = .ok ({ s with table := tableForAdd 0 s.table mk p }, [.error x 3 0])) ∧
     -- an action of a type the switch does not implement ↦ BAD_ACTION/BAD_TYPE
     (∀ b a rest, actionTable.lookup a.ty = none → rxMessage s (.packetOut x b true (a :: rest)) = .ok (s, [.error x 2 0])) ∧
+    -- the same in an ADD / MODIFY / MODIFY_STRICT flow_mod: refused, nothing installed, a named buffer left alone (repair C13-4)
+    (∀ c mk p ck f i hd op b acts, c ≤ 2 → (∃ a ∈ acts, actionTable.lookup a.ty = none) →
+        rxMessage s (.flowMod x c mk p ck f i hd op b acts) = .ok (s, [.error x 2 0])) ∧
     -- a buffer id that does not exist ↦ BAD_REQUEST/BUFFER_UNKNOWN; one that was already used ↦ BAD_REQUEST/BUFFER_EMPTY (repair C13-2)
     (∀ id acts, (id = 0 ∨ s.buffers.length ≤ id - 1) → rxMessage s (.packetOut x (some id) false acts) = .ok (s, [.error x 1 8])) ∧
     (∀ id acts, id ≠ 0 → s.buffers[id - 1]? = some false → rxMessage s (.packetOut x (some id) false acts) = .ok (s, [.error x 1 7])) := by
-  refine ⟨?_, ?_, ?_, ?_, ?_, ?_, fun _ => rfl, ?_, ?_, ?_, ?_, ?_, ?_, ?_⟩
+  have addBody : ∀ mk p ck f i hd op acts, (∀ a ∈ acts, (actionTable.lookup a.ty).isSome = true) →
+      rxMessage s (.flowMod x 0 mk p ck f i hd op none acts) = .ok (flowModAdd s x 0 mk p ck f i hd acts) := by
+    intro mk p ck f i hd op acts hk
+    have e : rxMessage s (.flowMod x 0 mk p ck f i hd op none acts) = rxFlowMod s x 0 mk p ck f i hd op none acts := rfl
+    rw [e]; unfold rxFlowMod; rw [badActions_false hk]; rfl
+  refine ⟨?_, ?_, ?_, ?_, ?_, ?_, fun _ => rfl, ?_, ?_, ?_, ?_, ?_, ?_, ?_, ?_⟩
   · intro p hw c mk h
     have e : rxMessage s (.portMod x p hw c mk) = .ok (rxPortMod s x p hw c mk) := rfl
     rw [e]; unfold rxPortMod; rw [h]; rfl
@@ -580,21 +593,25 @@ theorem errors_spec (s : SwitchState) (x : Nat) :
     rw [e, h1, h4]
   · intro c mk p ck f i hd op b acts hc
     have e : rxMessage s (.flowMod x c mk p ck f i hd op b acts) = rxFlowMod s x c mk p ck f i hd op b acts := rfl
-    rw [e]; unfold rxFlowMod; rw [flowModTable_none hc]; rfl
-  · intro mk p ck f i hd op acts he ht
-    have e : rxMessage s (.flowMod x 0 mk p ck f i hd op none acts) = .ok (flowModAdd s x 0 mk p ck f i hd acts) := rfl
-    rw [e]; unfold flowModAdd
+    have hb : badActions c acts = false := by
+      unfold badActions
+      have h1 : (c == OFPFC_ADD) = false := by simp [OFPFC_ADD]; omega
+      have h2 : (c == OFPFC_MODIFY) = false := by simp [OFPFC_MODIFY]; omega
+      have h3 : (c == OFPFC_MODIFY_STRICT) = false := by simp [OFPFC_MODIFY_STRICT]; omega
+      rw [h1, h2, h3]; rfl
+    rw [e]; unfold rxFlowMod; rw [hb]; simp only [Bool.false_eq_true, if_false]
+    unfold rxFlowModBody; rw [flowModTable_none hc]; rfl
+  · intro mk p ck f i hd op acts hk he ht
+    rw [addBody mk p ck f i hd op acts hk]; unfold flowModAdd
     have he' : hasBit f OFPFF_EMERG = true := he
     rw [if_pos he', if_pos ht]; rfl
-  · intro mk p ck f i hd op acts he ho hov
-    have e : rxMessage s (.flowMod x 0 mk p ck f i hd op none acts) = .ok (flowModAdd s x 0 mk p ck f i hd acts) := rfl
-    rw [e]; unfold flowModAdd
+  · intro mk p ck f i hd op acts hk he ho hov
+    rw [addBody mk p ck f i hd op acts hk]; unfold flowModAdd
     have he' : hasBit f OFPFF_EMERG = false := he
     have ho' : hasBit f OFPFF_CHECK_OVERLAP = true := ho
     rw [he', ho', hov]; rfl
-  · intro mk p ck f i hd op acts he ho hfull
-    have e : rxMessage s (.flowMod x 0 mk p ck f i hd op none acts) = .ok (flowModAdd s x 0 mk p ck f i hd acts) := rfl
-    rw [e]; unfold flowModAdd
+  · intro mk p ck f i hd op acts hk he ho hfull
+    rw [addBody mk p ck f i hd op acts hk]; unfold flowModAdd
     have he' : hasBit f OFPFF_EMERG = false := he
     have ho' : hasBit f OFPFF_CHECK_OVERLAP = false := ho
     rw [he', ho']
@@ -603,6 +620,17 @@ theorem errors_spec (s : SwitchState) (x : Nat) :
   · intro b a rest hl
     have e : rxMessage s (.packetOut x b true (a :: rest)) = processActions x s (a :: rest) := rfl
     rw [e]; unfold processActions; rw [hl]; rfl
+  · intro c mk p ck f i hd op b acts hc ⟨a, ha, hn⟩
+    have e : rxMessage s (.flowMod x c mk p ck f i hd op b acts) = rxFlowMod s x c mk p ck f i hd op b acts := rfl
+    have hb : badActions c acts = true := by
+      unfold badActions
+      have h1 : (c == OFPFC_ADD || c == OFPFC_MODIFY || c == OFPFC_MODIFY_STRICT) = true := by
+        have : c = 0 ∨ c = 1 ∨ c = 2 := by omega
+        rcases this with rfl | rfl | rfl <;> rfl
+      have h2 : (acts.any fun a => (actionTable.lookup a.ty).isNone) = true :=
+        List.any_eq_true.mpr ⟨a, ha, by rw [hn]; rfl⟩
+      rw [h1, h2]; rfl
+    rw [e]; unfold rxFlowMod; rw [hb]; rfl
   · intro id acts hid
     have e : rxMessage s (.packetOut x (some id) false acts) = processFromBuffer x s acts id := rfl
     rw [e]; unfold processFromBuffer
@@ -1015,26 +1043,6 @@ theorem history_events_partial (s : SwitchState) (es : List Event) (h : EvAdmiss
       have hf : FlowsFit (applySnapshot s n) := applyFlowCtrs_fit s.table n.flows hfit
       obtain ⟨s2, gs, e2, f2⟩ := ih (applySnapshot s n) hrest hf
       exact ⟨s2, [] :: gs, by simp only [runEv, stepEv, e2], .cons rfl f2⟩
-
-/-! ## what the current code does not do (proposed finding C13-4) -/
-
-/-- the standard (OpenFlow 1.0 §5.4.2, OFPET_BAD_ACTION): a flow_mod whose action list contains an action type the switch
-does not implement is refused with BAD_ACTION (2) / BAD_TYPE (0) -/
-def FlowModActionSpec (s : SwitchState) (x : Nat) (acts : List Act) : Prop :=
-  (∃ a ∈ acts, actionTable.lookup a.ty = none) →
-    rxMessage s (.flowMod x 0 none 1 0 0 0 0 65535 none acts) = .ok (s, [.error x 2 0])
-
-/-- the switch (code and model) installs such a flow silently (`_flow_mod_add` does not look at the actions,
-switch.py); the error then appears, with xid 0, each time a packet hits the entry -/
-theorem flow_mod_bad_action_defect : ¬ FlowModActionSpec demoState 7 [⟨65535, 0, 16⟩] := by
-  intro h
-  have h2 := h ⟨_, List.mem_singleton.mpr rfl, rfl⟩
-  have h3 : ∃ s', rxMessage demoState (.flowMod 7 0 none 1 0 0 0 0 65535 none [⟨65535, 0, 16⟩]) = .ok (s', []) := ⟨_, rfl⟩
-  obtain ⟨s', h3⟩ := h3
-  rw [h3] at h2
-  injection h2 with h2
-  injection h2 with _ h2
-  cases h2
 
 /-! ## non-vacuity -/
 
